@@ -49,6 +49,9 @@ def mergeK2K1 (g : Grid α) : Grid α := List.map (fun (o : List (List α)) => [
 end Grid
 
 /-- `remove_readout_os`: the readout samples that are kept: `[start, start + n_recon)`, `start = (n_enc − n_recon)/2` -/
-def cropRange (nEnc nRecon : Nat) : Nat × Nat := ((nEnc - nRecon) / 2, (nEnc - nRecon) / 2 + nRecon)
+def cropRange (nEnc nRecon : Nat) : Nat × Nat := (nEnc / 2 - nRecon / 2, nEnc / 2 - nRecon / 2 + nRecon)
+
+/-- the window of the pinned commit (`(nEnc − nRecon) // 2`): one sample off for an even readout and an odd reconstruction size; witness only -/
+def cropRangeShipped (nEnc nRecon : Nat) : Nat × Nat := ((nEnc - nRecon) / 2, (nEnc - nRecon) / 2 + nRecon)
 
 end M
